@@ -95,6 +95,15 @@ theorem Inv.weak {P : Env Val} {g : Heap → Val} {s : St Val} (hi : Inv P g s) 
   unfold tpc; repeat' split
   all_goals simp
 
+@[simp] theorem legacyNotify_heap (P : Env Val) (s : St Val) (old : Old Val) :
+    (legacyNotify P s old).heap = s.heap := by
+  unfold legacyNotify; repeat' split
+  all_goals simp
+@[simp] theorem legacyNotify_dyn (P : Env Val) (s : St Val) (old : Old Val) :
+    (legacyNotify P s old).dyn = s.dyn := by
+  unfold legacyNotify; repeat' split
+  all_goals simp
+
 /-! ## Reads -/
 
 theorem compute_inv (P : Env Val) (g : Heap → Val) (hG : PartialGetter P.G g) (s : St Val)
@@ -190,6 +199,12 @@ theorem tpc_inv (P : Env Val) (g : Heap → Val) (hG : PartialGetter P.G g) (s :
     simpa using hr
   · exact hi
 
+theorem legacyNotify_inv (P : Env Val) (g : Heap → Val) (hG : PartialGetter P.G g) (s : St Val) (old : Old Val)
+    (hi : Inv P g s) : Inv P g (legacyNotify P s old) := by
+  unfold legacyNotify
+  repeat' split
+  all_goals first | exact hi | exact tpc_inv P g hG s _ hi
+
 theorem handlerObserve_inv (P : Env Val) (g : Heap → Val) (hG : PartialGetter P.G g) (s : St Val)
     (hw : NoEntryIfUncached P s) : Inv P g (handlerObserve P s) :=
   tpc_inv P g hG _ _ (popCache_inv P g s hw)
@@ -220,7 +235,7 @@ theorem dispatchFire_inv (P : Env Val) (g : Heap → Val) (hG : PartialGetter P.
     (m : Mutation) (hw : NoEntryIfUncached P s0) : Inv P g (dispatchFire P s0 m) := by
   unfold dispatchFire
   split
-  · exact sib_inv P g hG _ _ (tpc_inv P g hG _ _ (sib_inv P g hG _ _ (popCache_inv P g s0 hw)))
+  · exact sib_inv P g hG _ _ (legacyNotify_inv P g hG _ _ (sib_inv P g hG _ _ (popCache_inv P g s0 hw)))
   · exact sib_inv P g hG _ _ (handlerObserve_inv P g hG _ (sib_weak P _ _ hw))
 
 /-- The heart of C12: a mutation preserves the invariant, because a mutation
